@@ -60,25 +60,42 @@ def _sizes(quick, thorough):
 # (w, n) per tier.  quick: the flagship sizes (64-bit vectors at w=64); thorough adds w=32 and odd sizes
 FULL = _sizes([(64, 16)], [(64, 16), (32, 8), (32, 16), (64, 5)])
 SOME = _sizes([(64, 16)], [(64, 16), (32, 8)])
+THOR = _sizes([], [(64, 16), (32, 8)])          # thorough only (keeps the quick tier inside its budget)
 BITS = _sizes([(64, 64)], [(64, 64), (32, 32), (16, 8)])
 BITS2 = _sizes([(64, 64)], [(64, 64), (32, 32)])
+BTHOR = _sizes([], [(64, 64), (32, 32)])
 
 COMPOSED = {
     'hex': [
         dict(name='hex.add', kind='add', dspec='dspec_add {B}', pexp=[0], carry='hex.add.dst', sizes=FULL),
         dict(name='hex.sub', kind='sub', dspec='dspec_sub {B}', pexp=[0], carry='hex.sub.dst', sizes=FULL),
         dict(name='hex.xor', kind='xor', dspec='dspec_map2 N.lxor', pexp=[], carry=None, sizes=SOME),
-        dict(name='hex.or', kind='or', dspec='dspec_map2 N.lor', pexp=[], carry=None, sizes=SOME),
-        dict(name='hex.and', kind='and', dspec='dspec_map2 N.land', pexp=[], carry=None, sizes=SOME),
+        dict(name='hex.or', kind='or', dspec='dspec_map2 N.lor', pexp=[], carry=None, sizes=THOR),
+        dict(name='hex.and', kind='and', dspec='dspec_map2 N.land', pexp=[], carry=None, sizes=THOR),
         dict(name='hex.not', kind='not', dspec='dspec_map1 (fun d => {B} - 1 - d)', pexp=[], carry=None, sizes=SOME),
         dict(name='hex.inc', kind='inc', tail_label=True, dspec='dspec_inc {B}', pexp=[], carry=None, sizes=FULL),
         dict(name='hex.dec', kind='dec', tail_label=True, dspec='dspec_dec {B}', pexp=[], carry=None, sizes=FULL),
         dict(name='hex.cmp', kind='cmp', tail_label=True, dspec='dspec_cmp', pexp=[], carry=None, sizes=FULL),
+        dict(name='hex.if', kind='if', xz=1, xnz=2, tail_label=True, dspec='dspec_if 2', pexp=[], carry=None, sizes=FULL),
+        dict(name='hex.if0', kind='if', xz=1, xnz=0, tail_label=True, dspec='dspec_if 0', pexp=[], carry=None, sizes=THOR),
+        dict(name='hex.if1', kind='if', xz=0, xnz=1, tail_label=True, dspec='dspec_if 1', pexp=[], carry=None, sizes=THOR),
+        dict(name='hex.xor_zero', kind='xor_zero', dspec='dspec_map22 N.lxor (fun _ _ => 0)', pexp=[], carry=None, sizes=THOR),
+        dict(name='hex.zero', kind='zero', dspec='dspec_map1 (fun _ => 0)', pexp=[], carry=None, sizes=THOR),
     ],
     'bit': [
         dict(name='bit.xor', kind='xor', dspec='dspec_map2 N.lxor', pexp=[], carry=None, sizes=BITS),
         dict(name='bit.not', kind='not', dspec='dspec_map1 (fun d => {B} - 1 - d)', pexp=[], carry=None, sizes=BITS),
         dict(name='bit.add', kind='add', dspec='dspec_add {B}', pexp=[0], carry='local:carry', sizes=BITS2),
+        dict(name='bit.inc', kind='binc', tail_label=True, dspec='dspec_binc', pexp=[1], carry='local:carry', sizes=BITS2),
+        dict(name='bit.cmp', kind='cmp', tail_label=True, dspec='dspec_cmp', pexp=[], carry=None, sizes=BITS2),
+        dict(name='bit.if', kind='if', xz=1, xnz=2, tail_label=True, dspec='dspec_if 2', pexp=[], carry=None, sizes=BITS2),
+        dict(name='bit.if0', kind='if', xz=1, xnz=0, tail_label=True, dspec='dspec_if 0', pexp=[], carry=None, sizes=BTHOR),
+        dict(name='bit.if1', kind='if', xz=0, xnz=1, tail_label=True, dspec='dspec_if 1', pexp=[], carry=None, sizes=BTHOR),
+        dict(name='bit.or', kind='or', dspec='dspec_map2 N.lor', pexp=[], carry=None, sizes=BTHOR),
+        dict(name='bit.and', kind='and', dspec='dspec_map2 N.land', pexp=[], carry=None, sizes=BTHOR),
+        dict(name='bit.xor_zero', kind='xor_zero', dspec='dspec_map22 N.lxor (fun _ _ => 0)', pexp=[], carry=None, sizes=BTHOR),
+        dict(name='bit.swap', kind='swap', dspec='dspec_map22 (fun _ s => s) (fun d _ => d)', pexp=[], carry=None, sizes=BTHOR),
+        dict(name='bit.zero', kind='zero', dspec='dspec_map1 (fun _ => 0)', pexp=[], carry=None, sizes=BTHOR),
     ],
 }
 
@@ -171,16 +188,22 @@ def find_marks(b, k, res, niter=None):
     own last label when the step macro is known to end with a label of its own (`next:` of hex.inc.step, `eq:` of
     hex.cmp.cmp_eq_next: `tail_label` in the table), else at the first labelled address after it.  HINTS ONLY: a wrong boundary makes a digit lemma false."""
     lo, hi = b.addr['entry'], b.addr['exits'][0][0]
-    pat = re.compile(r'^f\d+:l\d+:[^-]+---s\d+:l\d+:rep(\d+):')
-    labs = [(lo, None, 0), (hi, None, 0)]          # (address, rep iteration or None, nesting depth of the label)
-    starts = set()
+    comp = re.compile(r'^s\d+:l\d+:rep(\d+):')
+    raw = []
     for name, a in res['inner']:
         if not (lo <= a <= hi) or ':wflips:' in name:
             continue
-        m = pat.match(name)
-        it = int(m.group(1)) if m else None
-        labs.append((a, it, name.count('---')))
-        if m and name.endswith(':start:'):
+        parts = name.split('---')
+        reps = [(d, int(comp.match(c).group(1))) for d, c in enumerate(parts) if comp.match(c)]
+        raw.append((name, a, len(parts) - 1, reps[0] if reps else None))
+    # the rep over the digits is the outermost one: the smallest nesting depth at which a rep iteration appears
+    top = min((r[0] for _, _, _, r in raw if r), default=None)
+    labs = [(lo, None, 0), (hi, None, 0)]          # (address, rep iteration or None, nesting depth of the label)
+    starts = set()
+    for name, a, depth, r in raw:
+        it = r[1] if r and r[0] == top else None
+        labs.append((a, it, depth))
+        if it is not None and name.endswith(':start:'):
             starts.add((it, a))
     n = b.n if niter is None else niter
     first = {i: min(a for a, it, _ in labs if it == i) for i in {it for _, it, _ in labs if it is not None}}
@@ -213,10 +236,26 @@ def block_marks(b, k, res):
         if marks is None or any(f'b{k}_x{i}' not in L for i in (1, 2, 3)):
             return None
         return marks + [L[f'b{k}_x2']], [(1, L[f'b{k}_x1']), (3, L[f'b{k}_x3'])], 2, True
+    if b.cmp['kind'] == 'if':
+        # rep over the n-1 lower digits (leave to the non-zero exit at the first non-zero digit), then one more `.if`;
+        # exit e > 0 continues at the harness tail b<k>_x<e>, exit 0 (a macro-local label at the end) at the block's stl.loop
+        L = res['labels']
+        xz, xnz = b.cmp['xz'], b.cmp['xnz']
+
+        def tail(e):
+            return b.addr['exits'][0][0] if e == 0 else L.get(f'b{k}_x{e}')
+        marks = find_marks(b, k, res, b.n - 1) if b.n >= 2 else None
+        if marks is None or tail(xz) is None or tail(xnz) is None:
+            return None
+        return marks + [tail(xz)], [(xnz, tail(xnz))], xz, False
     marks = find_marks(b, k, res)
     if marks is None:
         return None
-    outs = [(0, marks[-1])] if b.cmp['kind'] in ('inc', 'dec') else []
+    outs = []
+    if b.cmp['kind'] in ('inc', 'dec'):
+        outs = [(0, marks[-1])]
+    elif b.cmp['kind'] == 'binc':
+        outs = [(0, b.addr['exits'][0][0])]       # bit.inc's `end:` is the last thing of the macro = the block's stl.loop
     return marks, outs, 0, False
 
 
@@ -414,6 +453,30 @@ def _closer_cmp(thm):
     return f
 
 
+def _closer_if(thm):
+    def f(b, p, ch):
+        bits = stl._bits(b.vars[0][1])
+        base = 1 << bits
+        return (f'exact ({thm} ww segs img {ch} b{b.k} ({base} ^ {b.n}) {bits * b.n} {b.n}%nat {b.cmp["xz"]} {b.cmp["xnz"]} '
+                f'{stl.thm_spec(b)} eq_refl eq_refl eq_refl eq_refl eq_refl eq_refl eq_refl S_{p} eq_refl P_{p} DD_{p} E_{p}).')
+    return f
+
+
+def _closer_binc(thm):
+    def f(b, p, ch):
+        return (f'exact ({thm} ww segs img {ch} b{b.k} (2 ^ {b.n}) {b.n} {b.n}%nat {stl.thm_spec(b)} '
+                f'eq_refl eq_refl eq_refl eq_refl eq_refl eq_refl eq_refl eq_refl S_{p} eq_refl P_{p} DD_{p} E_{p}).')
+    return f
+
+
+def _closer_map1(thm):
+    def f(b, p, ch):
+        bits = stl._bits(b.vars[0][1])
+        return (f'intros a _. exact ({thm} ww segs img {ch} b{b.k} {bits} {b.n}%nat {stl.thm_spec(b)} '
+                f'eq_refl eq_refl eq_refl eq_refl eq_refl eq_refl S_{p} eq_refl P_{p} DD_{p} E_{p} a).')
+    return f
+
+
 def _closer_map2(thm):
     def f(b, p, ch):
         bits = stl._bits(b.vars[0][1])
@@ -430,19 +493,24 @@ CLOSERS = {
     'inc': ('compose_inc', _closer_carry('compose_inc_inst')),
     'dec': ('compose_dec', _closer_carry('compose_dec_inst')),
     'cmp': ('compose_cmp', _closer_cmp('compose_cmp_inst')),
+    'if': ('compose_if', _closer_if('compose_if_inst')),
+    'binc': ('compose_binc', _closer_binc('compose_binc_inst')),
+    'xor_zero': ('compose_map22 (N.lxor, 0)', _closer_map2('compose_xor_zero_inst')),
+    'swap': ('compose_map22 (swap)', _closer_map2('compose_swap_inst')),
+    'zero': ('compose_map1 (0)', _closer_map1('compose_zero_inst')),
     'xor': ('compose_map2 (N.lxor)', _closer_map2('compose_xor_inst')),
     'or': ('compose_map2 (N.lor)', _closer_map2('compose_or_inst')),
     'and': ('compose_map2 (N.land)', _closer_map2('compose_and_inst')),
 }
 
 
-def emit_master(im, ok_blocks):
+def emit_master(im, ok_blocks, idx=0):
     """every proof term below matches its statement SYNTACTICALLY (the derived quantities are passed explicitly and tied by
     eq_refl on small closed terms): type checking never has to convert a term that contains a check"""
-    name = f'StlT_{im["name"]}'
+    name = f'StlT_{im["name"]}_{idx}'
     files = []
     for b in ok_blocks:
-        files += b.lemma_files
+        files += [f for f in b.lemma_files if f not in files]
     txt = [f'(* GENERATED - theorems for ALL operands, by composition, image {im["name"]} (w = {im["w"]}) *)',
            f'{HDR} Gen.Img_{im["name"]}' + ''.join(f' Gen.{f}' for f in files) + '.', 'Local Open Scope N_scope.']
     for b in ok_blocks:
@@ -503,10 +571,17 @@ def reach_cmp(b, i, row, cidx):
     return [row[0] << p, row[1] << p]
 
 
+def reach_binc(b, i, row, cidx):
+    return reach_inc(b, i, row, cidx) if (cidx and cidx[0]) else reach_dec(b, i, row, cidx)
+
+
 REACH['cmp'] = reach_cmp
 REACH['inc'] = reach_inc
 REACH['dec'] = reach_dec
 REACH['sub'] = reach_sub
+REACH['if'] = reach_dec
+REACH['binc'] = reach_binc
+REACH['xor_zero'] = REACH['swap'] = REACH['zero'] = reach_add
 
 
 def diagnose_digits(im, b, digits):
@@ -778,8 +853,8 @@ def _run(ctx, cfg, comp):
     for im in live:
         okb = [b for b in im['blocks'] if id(b) not in failed]
         cov['obligations'] += len(im['blocks'])
-        if okb:
-            masters.append((im, okb, emit_master(im, okb)))
+        for j, b in enumerate(okb):         # one theorem file per block: they compile in parallel
+            masters.append((im, [b], emit_master(im, [b], j)))
     rm = stl.coqc_many([p for _, _, p in masters], 900)
     for im, okb, path in masters:
         rc, out, _ = rm[path]
